@@ -90,6 +90,51 @@ func (s *Sched) Note(what string) {
 	s.mu.Unlock()
 }
 
+// GateOnly serves scripted holds at a point of the yield-instrumented build (cmd/yieldify): no log, no
+// jitter. Name is "y:<file>:<line>"; the goroutine's role and its stack text (Point.Stack, so that a
+// predicate can ask which function the point lies in) are computed only while a hold is armed.
+func (s *Sched) GateOnly(name string) {
+	s.mu.Lock()
+	armed := false
+	for _, h := range s.holds {
+		if !h.done {
+			armed = true
+			break
+		}
+	}
+	s.mu.Unlock()
+	if !armed {
+		return
+	}
+	buf := make([]byte, 8192)
+	st := string(buf[:runtime.Stack(buf, false)])
+	p := Point{Name: "y:" + name, Role: roleOfStack(st), Stack: st}
+	s.mu.Lock()
+	var hit *Hold
+	for _, h := range s.holds {
+		if h.done || !h.match(p) {
+			continue
+		}
+		if h.skip > 0 {
+			h.skip--
+			continue
+		}
+		h.done = true
+		h.At = Point{Name: p.Name, Role: p.Role}
+		hit = h
+		break
+	}
+	s.mu.Unlock()
+	if hit != nil {
+		hit.once.Do(func() { close(hit.reached) })
+		select {
+		case <-hit.release:
+		case <-time.After(s.Watchdog):
+			hit.TimedOut = true
+		}
+	}
+}
+
 // At is the seam entry: record, maybe hold, maybe perturb.
 func (s *Sched) At(p Point) {
 	s.mu.Lock()
